@@ -28,7 +28,16 @@ func genMultiCase(rt *rapid.T) *MultiCase {
 	p.MaxSteps = 4
 	p.MaxOutputs = 2
 	p.RichInput = false
+	// expressions whose evaluation fails for some inputs only (stringToInt of the input string, an
+	// index into the input list, a division by the input integer): a failed run must not leave
+	// anything behind in the prepared workflow
+	p.Faults = true
 	c := vcase.GenCase(rt, p, "C14")
+	// in a quarter of the cases the first output carries a field that evaluates for some inputs only
+	if _, hasI := c.InputDoc["i"]; hasI && len(c.Main.Outputs) > 0 && c.Main.Outputs[0].Val.K == "map" && rapid.IntRange(0, 3).Draw(rt, "output-fault-motif?") == 0 {
+		c.Main.Outputs[0].Val.Set("zdiv", vcase.ExprVal(&vcase.Expr{K: "bin", Op: "/", Args: []*vcase.Expr{{K: "lit", Lit: vcase.IntLit(100)}, {K: "in", Field: "i"}}}))
+		c.Labels = append(c.Labels, "motif:output-field-divides-by-the-input")
+	}
 	baseScript := c.Script
 	vcase.Multiplex(c.Main, c.Subs)
 	mc := &MultiCase{Base: c, RePrepare: rapid.Bool().Draw(rt, "re-prepare")}
@@ -53,12 +62,26 @@ func genMultiCase(rt *rapid.T) *MultiCase {
 			if !sameInput || j == 0 {
 				if _, ok := in["i"]; ok {
 					in["i"] = rapid.Int64Range(-20, 200).Draw(rt, id+".i")
+					if rapid.IntRange(0, 3).Draw(rt, id+".i.small?") == 0 {
+						in["i"] = rapid.SampledFrom([]int64{0, 0, 1, 2}).Draw(rt, id+".i.small")
+					}
+				}
+				if _, ok := in["l"]; ok {
+					n := rapid.IntRange(0, 3).Draw(rt, id+".l.n")
+					l := make([]any, n)
+					for x := range l {
+						l[x] = rapid.Int64Range(0, 9).Draw(rt, fmt.Sprintf("%s.l.%d", id, x))
+					}
+					in["l"] = l
 				}
 				if _, ok := in["s"]; ok {
 					in["s"] = rapid.SampledFrom([]string{"", "abc", "Q", "12"}).Draw(rt, id+".s")
 				}
 			} else {
 				in["i"], in["s"] = round[0].Input.(map[string]any)["i"], round[0].Input.(map[string]any)["s"]
+				if l, ok := round[0].Input.(map[string]any)["l"]; ok {
+					in["l"] = l
+				}
 				if in["i"] == nil {
 					delete(in, "i")
 				}
@@ -164,6 +187,17 @@ func checkMultiCase(st *Stats, mc *MultiCase) string {
 			}
 			if r.Returned.Err != "" && strings.Contains(r.Returned.Err, fallbackText) && len(m.Producible()) > 0 {
 				st.ForeignAnomaly("C09", mc)
+				continue
+			}
+			if len(m.Faults) > 0 || m.EagerFaults() {
+				// the reference predicts that evaluating some expression fails with this run's input:
+				// such a run may end in an error, or in an output whose own expressions evaluate
+				st.Label("run-with-evaluation-fault")
+				if r.Returned.Err == "" {
+					if f := m.OutFault[r.Returned.OutputID]; f != nil {
+						return fmt.Sprintf("run %s returned output %q although its expression faults (%s: %s)", r.ID, r.Returned.OutputID, f.Where, f.Reason)
+					}
+				}
 				continue
 			}
 			if msg := checkResult(c, m, (*returned)(r.Returned)); msg != "" {
